@@ -133,3 +133,50 @@ Proof.
       destruct (N.testbit i t), (N.testbit A t), (N.testbit B t), (N.testbit a t), (N.testbit b t); try reflexivity; discriminate.
   - rewrite andb_comm. reflexivity.
 Qed.
+
+(** ** total probability: summing the joint weight over all outcomes of one mask gives the marginal of the other,
+    so a measurement (or a reset) whose outcome is not looked at does not change the statistics of the other qubits *)
+Lemma nsum_add k : forall start g h, nsum k start (fun i => g i + h i) = nsum k start g + nsum k start h.
+Proof. induction k as [|k IH]; intros start g h; cbn [nsum]; [ring|]. rewrite IH. ring. Qed.
+
+Lemma nsum_zero k : forall start, nsum k start (fun _ => 0) = 0.
+Proof. induction k as [|k IH]; intro start; cbn [nsum]; [reflexivity|]. rewrite IH. ring. Qed.
+
+Lemma nsum_swap k1 : forall s1 k2 s2 (g : N -> N -> R),
+  nsum k1 s1 (fun a => nsum k2 s2 (fun i => g a i)) = nsum k2 s2 (fun i => nsum k1 s1 (fun a => g a i)).
+Proof.
+  induction k1 as [|k1 IH]; intros s1 k2 s2 g; cbn [nsum].
+  - symmetry. apply nsum_zero.
+  - rewrite IH, <- nsum_add. reflexivity.
+Qed.
+
+Lemma nsum_pick k : forall start c x, (start <= c)%N -> (N.to_nat c < N.to_nat start + k)%nat ->
+  nsum k start (fun a => if N.eqb c a then x else 0) = x.
+Proof.
+  induction k as [|k IH]; intros start c x H1 H2; [lia|]. cbn [nsum].
+  destruct (N.eqb_spec c start) as [E|E].
+  - subst c. rewrite (nsum_ext k (N.succ start) _ (fun _ => 0)); [rewrite nsum_zero; ring|].
+    intros i Hi _. destruct (N.eqb_spec start i); [lia|reflexivity].
+  - rewrite IH by lia. ring.
+Qed.
+
+Definition C07_total_stmt : Prop :=
+  forall (v : bufR) (A B b : N) (n : nat),
+    (A < 2 ^ N.of_nat n)%N ->
+    nsum (Nat.pow 2 n) 0 (fun a => wsum v (fun i => agrees A a i && agrees B b i)%bool) = wsum v (agrees B b).
+
+Lemma C07_total_proof : C07_total_stmt.
+Proof.
+  intros v A B b n HA. unfold wsum. rewrite nsum_swap. apply nsum_ext. intros i _ _.
+  unfold agrees.
+  rewrite (nsum_ext _ 0 _ (fun a => if N.eqb (N.land i A) a then (if N.eqb (N.land i B) b then n2 (get Rops v i) else 0) else 0)).
+  - apply nsum_pick; [lia|].
+    assert (H : (N.land i A < 2 ^ N.of_nat n)%N).
+    { apply N.le_lt_trans with A; [|exact HA].
+      destruct (N.le_gt_cases (N.land i A) A) as [L|G]; [exact L|]. exfalso.
+      assert (S : N.ldiff (N.land i A) A = 0%N).
+      { apply N.bits_inj. intro t. rewrite N.ldiff_spec, N.land_spec, N.bits_0. destruct (N.testbit i t), (N.testbit A t); reflexivity. }
+      apply N.ldiff_le in S. lia. }
+    change (2 ^ N.of_nat n)%N with (p2 n) in H. rewrite <- (of_nat_pow2 n) in H. lia.
+  - intros a _ _. destruct (N.eqb (N.land i A) a), (N.eqb (N.land i B) b); reflexivity.
+Qed.
